@@ -104,6 +104,9 @@ func (x *strans) assignTo(lhs ast.Expr, define bool, mk func(want string) sval, 
 			if ti.Kind == "drop" {
 				fail("local %s of dropped type %s", l.Name, val.typ)
 			}
+			if ti.Kind == "map" && val.lean != "GoMap.empty" {
+				fail("local %s would alias a map (Go maps are references; the translation copies values)", l.Name)
+			}
 			en2, lean := en.declare(l.Name, val.typ)
 			return "let " + lean + " : " + ti.Lean + " := " + val.lean + "\n", en2
 		}
@@ -114,6 +117,7 @@ func (x *strans) assignTo(lhs ast.Expr, define bool, mk func(want string) sval, 
 			fail("closure assigns the outer variable %s", l.Name)
 		}
 		val := x.coerce(mk(v.typ), v.typ)
+		x.noAlias(v.typ, val.lean, v.lean)
 		return "let " + v.lean + " : " + x.leanTypeOf(v.typ) + " := " + val.lean + "\n", en
 	case *ast.SelectorExpr:
 		if f, ok := x.recvField(l); ok {
@@ -126,6 +130,7 @@ func (x *strans) assignTo(lhs ast.Expr, define bool, mk func(want string) sval, 
 			}
 			rv := en.lookup(x.recv)
 			val := x.coerce(mk(ft), ft)
+			x.noAlias(ft, val.lean, rv.lean+"."+f)
 			return "let " + rv.lean + " : " + x.g.recvLean() + " := { " + rv.lean + " with " + f + " := " + val.lean + " }\n", en
 		}
 	case *ast.IndexExpr:
@@ -145,6 +150,18 @@ func (x *strans) assignTo(lhs ast.Expr, define bool, mk func(want string) sval, 
 }
 
 func (x *strans) closureDepth() int { return x.clDepth }
+
+// noAlias: Go maps are references; the translation treats them as values, which is sound only if a map is never
+// reachable under two names.  A map-typed target may receive `make(..)` / nil or an update of ITSELF only.
+func (x *strans) noAlias(goType, val, self string) {
+	if x.g.typeInfo(goType).Kind != "map" {
+		return
+	}
+	if val == "GoMap.empty" || strings.HasPrefix(val, "GoMap.set "+paren(self)+" ") || strings.HasPrefix(val, "GoMap.delete "+paren(self)+" ") {
+		return
+	}
+	fail("assignment would alias a map (Go maps are references; the translation copies values)")
+}
 
 // bindMany assigns the components of one multi-valued Lean expression to the targets
 func (x *strans) bindMany(lhs []ast.Expr, define bool, tupleExpr string, types []string, en senv) (string, senv) {
